@@ -81,7 +81,9 @@ class Lower:
         if k == 'call' and e[1] == ('member', ('id', 'arg'), '_vptr', False) and e[2] == []:
             return 'RVptrEmbedded'
         if k == 'call' and e[1][0] == 'tmpl' and e[1][1] == 'vptr' and [norm(t) for t in e[1][2]] == ['ArgType'] and e[2] == [('id', 'arg')]:
-            return 'RVptrLookup'
+            return 'RVptrCall'
+        if k == 'call' and e[1] == ('id', 'Policy::dynamic_vptr') and e[2] == [('id', 'arg')]:
+            return 'RDynamicVptr'
         if k == 'index':
             base, idx = e[1], e[2]
             if base == ('member', ('this',), 'slots_strides', True):
@@ -187,6 +189,17 @@ class Lower:
         return '(WTail %s None None)' % FNAME[name]
 
 
+def unqualify(e):
+    """detail::is_virtual_ptr<ArgType> -> is_virtual_ptr<ArgType> (the functions say `using namespace detail`)"""
+    if isinstance(e, tuple):
+        if e and e[0] == 'tmpl' and isinstance(e[1], str) and e[1].startswith('detail::'):
+            return ('tmpl', e[1][len('detail::'):]) + tuple(unqualify(x) for x in e[2:])
+        return tuple(unqualify(x) for x in e)
+    if isinstance(e, list):
+        return [unqualify(x) for x in e]
+    return e
+
+
 def main():
     try:
         src = mc.strip_comments(open(SRC).read())
@@ -204,6 +217,12 @@ def main():
                 raise mc.Unsupported('%s: parameter list changed: %s' % (name, params))
             ast = mc.parse_function_body(body, TEMPLATES)
             defs[name] = Lower(name, name == 'resolve_multi_next').s(ast)
+        # method::vptr<ArgType>(arg), which the three functions may call
+        params, body, line = mc.find_function(src, METHOD + r'vptr\b', 'vptr')
+        if norm(params) != 'constArgType&arg':
+            raise mc.Unsupported('vptr: parameter list changed: ' + params)
+        ast = mc.parse_function_body(body, TEMPLATES + ('detail::is_virtual_ptr',))
+        defs['vptr'] = Lower('vptr', False).s(unqualify(ast))
         # the entry: method::resolve
         params, body, line = mc.find_function(src, METHOD + r'resolve\b', 'resolve')
         ast = mc.parse_function_body(body, TEMPLATES)
@@ -238,9 +257,10 @@ def main():
             'Definition gen_resolve_uni : wstmt :=\n %s.\n\n'
             'Definition gen_resolve_multi_first : wstmt :=\n %s.\n\n'
             'Definition gen_resolve_multi_next : wstmt :=\n %s.\n\n'
-            'Definition gen_walkfns : walkfns :=\n  {| wf_uni := gen_resolve_uni; wf_first := gen_resolve_multi_first; wf_next := gen_resolve_multi_next |}.\n\n'
+            'Definition gen_vptr : wstmt :=\n %s.\n\n'
+            'Definition gen_walkfns : walkfns :=\n  {| wf_uni := gen_resolve_uni; wf_first := gen_resolve_multi_first; wf_next := gen_resolve_multi_next; wf_vptr := gen_vptr |}.\n\n'
             'Definition gen_entry : nat * fname * fname := %s.\n'
-            % (SRC, defs['resolve_uni'], defs['resolve_multi_first'], defs['resolve_multi_next'], entry))
+            % (SRC, defs['resolve_uni'], defs['resolve_multi_first'], defs['resolve_multi_next'], defs['vptr'], entry))
     vlib.write_if_changed(os.path.join(vlib.COQ, 'Gen', 'GenWalk.v'), text)
 
 
